@@ -7,7 +7,7 @@ from vlib import core, gen_sig
 
 SPEC = "trace/SigTrace.tla"
 WRAPS = ["ep_map_sswum"]
-VER_OPS = ("ecdsa_ver", "ecss_ver", "rsa_ver", "bls_ver")
+VER_OPS = ("ecdsa_ver", "ecss_ver", "rsa_ver", "bls_ver", "bbs_ver", "zss_ver")
 
 
 def nontrivial(e):
@@ -34,8 +34,9 @@ def expect_violation(ev, mod, cfg, invariant, consts):
     """a model configuration that MUST fail (non-vacuity: the invariant detects the modelled defect)"""
     r = core.tlc("model/%s.tla" % mod, "model/%s.cfg" % cfg, workers=4, timeout=1200)
     ev.add_mc(cfg, r, consts + " [expected counterexample: %s]" % invariant)
-    ev.cov["mc_runs"][-1]["expected_violation"] = invariant
-    ev.cov["mc_runs"][-1]["ok"] = (r.invariant_violated == invariant)
+    rec = next(m for m in reversed(ev.cov["mc_runs"]) if m["spec"] == cfg)
+    rec["expected_violation"] = invariant
+    rec["ok"] = (r.invariant_violated == invariant)
     if r.invariant_violated != invariant:
         raise core.InfraError("model %s/%s: expected a counterexample to %s, got %r\n%s"
                               % (mod, cfg, invariant, r.invariant_violated, r.out[-2500:]))
@@ -89,9 +90,10 @@ def run(tier, seed):
     ev.cov["schemes"] = {
         "with_definitional_predicate": ["ECDSA (FIPS 186-4 6.4)", "EC-Schnorr (as coded + BSI TR-03111 validity clauses)",
                                         "RSA-PSS sLen=0 (RFC 8017 8.1.2/9.1.2)", "RSA PKCS#1 v1.5 (RFC 8017 8.2.2/9.2; thorough)",
-                                        "RSA basic padding (re-encoding; thorough)", "BLS (ghost logarithm, G2 arithmetic over F_p^2 in the spec)"],
+                                        "RSA basic padding (re-encoding; thorough)", "BLS (ghost logarithm, G2 arithmetic over F_p^2 in the spec)",
+                                        "Boneh-Boyen short signatures (cp_bbs, ghost logarithm)", "ZSS (cp_zss, ghost logarithm)"],
         "completeness_only": [],
-        "not_covered": ["BB", "ZSS", "CL", "PS/mPS", "vBNN-IBS", "PoK/SoK", "ring signatures (ERS/SMLERS/ETRS)",
+        "not_covered": ["CL", "PS/mPS", "vBNN-IBS", "PoK/SoK", "ring signatures (ERS/SMLERS/ETRS)",
                         "homomorphic signatures (CMLHS/MKLHS)"]}
     ev.assumptions = ["pre-hashed RSA mode is driven with digests of exactly RLC_MD_LEN bytes (its domain)",
                       "hash-to-curve output of cp_bls_ver is bound from the execution (input must equal the message); its correctness is C13",
@@ -109,7 +111,8 @@ def run(tier, seed):
     # (bits requested, key seed, brief): moduli of 1024, 1023, 521 and 522 bits (cp_rsa_gen multiplies two primes of bits/2 bits)
     keys = [(1024, "c0502", False), (1024, "c0526", True), (522, "01", True), (522, "04", True)]
     cases = (gen_sig.ec_cases(rng, "ecdsa", ids, tier) + gen_sig.ec_cases(rng, "ecss", ids, tier)
-             + gen_sig.rsa_cases(rng, tier, "pss", keys) + gen_sig.bls_cases(rng, tier))
+             + gen_sig.rsa_cases(rng, tier, "pss", keys) + gen_sig.bls_cases(rng, tier)
+             + gen_sig.inv_cases(rng, tier, "bbs") + gen_sig.inv_cases(rng, tier, "zss"))
     rng.shuffle(cases)
     events, _ = conf.run("std256", "std256", "sig", ["drv_sig.c"], cases, SPEC, wraps=WRAPS, nontrivial=nontrivial,
                          min_per_shard=20, tlc_timeout=3000, driver_timeout=1800)
